@@ -130,6 +130,12 @@ def run(pid, check_fn, level, explanation, trusted_base=(), crates=("profirust",
         else:
             viol.append(o)
     os.makedirs(REPLAY, exist_ok=True)
+    for old_rp in os.listdir(REPLAY):  # replay files of an earlier run of this property are stale
+        if old_rp.startswith(pid + "-"):
+            try:
+                os.remove(os.path.join(REPLAY, old_rp))
+            except OSError:
+                pass
     for o, k in knownhits:
         print("KNOWN-FINDING: property=%s %s" % (pid, k.get("what", o["detail"].splitlines()[0] if o["detail"] else o["key"])))
     n = 0
@@ -162,6 +168,7 @@ def run(pid, check_fn, level, explanation, trusted_base=(), crates=("profirust",
         "clauses": sorted({o["clause"] for o in all_obs}),
         "known_findings_hit": [k["key"] for _, k in knownhits],
         "tree_hash": facts.tree_hash(),
+        "not_decided": notes,
     }
     if selftest_res is not None:
         cov["selftest"] = selftest_res
